@@ -71,6 +71,7 @@ const (
 	srcViaSymlink
 	srcMissing
 	srcDirLinkDotDot // spelled <symlink to a directory elsewhere>/../source.bin: the kernel resolves ".." after following the link
+	srcSymlinkChain  // a symlink to a symlink (to a symlink) to the file, some hops with relative targets
 )
 
 const (
@@ -90,12 +91,14 @@ const (
 	dstOtherFSSymlinkBack
 	dstDevFull       // /dev/full: can be opened for writing, every write fails with ENOSPC (a full disk)
 	dstDirLinkDotDot // spelled <symlink to a directory elsewhere>/../dest.bin; another dest.bin sits where a lexical clean-up of the spelling points
+	dstRealSource    // the file the source names in the end, spelled plainly (differs from same-path when the source is a link)
+	dstChainToSrc    // a symlink to a symlink to the source file
 	numDst
 )
 
-var srcNames = []string{"regular", "via-symlink", "missing", "via-symlinked-directory-dotdot"}
+var srcNames = []string{"regular", "via-symlink", "missing", "via-symlinked-directory-dotdot", "via-chain-of-symlinks"}
 var dstNames = []string{"missing", "existing-shorter", "existing-longer", "existing-same-length", "same-path", "dot-slash-spelling", "symlink-to-source", "hardlink-to-source", "directory", "parent-missing", "parent-is-file",
-	"other-fs", "other-fs-existing", "other-fs-symlink-back-to-source", "device-where-every-write-fails", "via-symlinked-directory-dotdot"}
+	"other-fs", "other-fs-existing", "other-fs-symlink-back-to-source", "device-where-every-write-fails", "via-symlinked-directory-dotdot", "the-file-the-source-resolves-to", "chain-of-symlinks-to-source"}
 
 type scen struct {
 	move    bool
@@ -176,7 +179,8 @@ func (s scen) nontrivial() bool {
 
 // run builds the scenario, performs the call and judges the outcome. "" = fine; skipped = class not available.
 func run(s scen) (msg string, skipped bool) {
-	if s.dst >= dstOtherFS && s.dst != dstDevFull && otherFS == "" {
+	needsOtherFS := s.dst == dstOtherFS || s.dst == dstOtherFSExisting || s.dst == dstOtherFSSymlinkBack
+	if needsOtherFS && otherFS == "" {
 		return "", true
 	}
 	if s.dst == dstDevFull {
@@ -190,7 +194,7 @@ func run(s scen) (msg string, skipped bool) {
 	}
 	defer os.RemoveAll(dir)
 	var odir string
-	if s.dst >= dstOtherFS && s.dst != dstDevFull {
+	if needsOtherFS {
 		odir, err = os.MkdirTemp(otherFS, "c18-")
 		if err != nil {
 			return "", true
@@ -228,6 +232,26 @@ func run(s scen) (msg string, skipped bool) {
 		must(os.WriteFile(realSrc, data, 0o644))
 		must(os.WriteFile(filepath.Join(dir, "source.bin"), []byte("decoy source: not the file that was named"), 0o644))
 		srcPath = dir + "/jump/../source.bin"
+	case srcSymlinkChain:
+		// source.link -> hop1.link [-> hop2.link] -> source.bin; whoever resolves only one hop sees another link
+		must(os.WriteFile(realSrc, data, 0o644))
+		hops := 2 + int(s.salt%2)
+		target := realSrc
+		if s.salt%3 == 0 {
+			target = "source.bin" // relative to the directory of the link
+		}
+		// (the hops stay where they are and may name their target relatively; the link that is named in the call holds
+		// an absolute target, as for "via-symlink": a rename does not rewrite a relative one)
+		for h := hops - 1; h >= 1; h-- {
+			name := fmt.Sprintf("hop%d.link", h)
+			must(os.Symlink(target, filepath.Join(dir, name)))
+			target = filepath.Join(dir, name)
+			if h > 1 && (s.salt>>uint(h))%2 == 0 {
+				target = name
+			}
+		}
+		srcPath = filepath.Join(dir, "source.link")
+		must(os.Symlink(target, srcPath))
 	}
 	other := content(s.size, s.salt+1)
 	dstPath := filepath.Join(dir, "dest.bin")
@@ -284,6 +308,19 @@ func run(s scen) (msg string, skipped bool) {
 		bystander = filepath.Join(dir, "dest.bin")
 		must(os.WriteFile(bystander, bystanderData, 0o644))
 		dstPath = dir + "/jump2/../dest.bin" // = dir/elsewhere2/dest.bin
+	case dstRealSource:
+		dstPath = realSrc
+		aliasing = true
+	case dstChainToSrc:
+		mid := filepath.Join(dir, "dest.mid.link")
+		must(os.Symlink(realSrc, mid))
+		dstPath = filepath.Join(dir, "dest.link")
+		if s.salt%2 == 0 {
+			must(os.Symlink("dest.mid.link", dstPath))
+		} else {
+			must(os.Symlink(mid, dstPath))
+		}
+		aliasing = true
 	}
 	if s.src == srcMissing {
 		aliasing = false
@@ -438,7 +475,7 @@ func TestGenerated(t *testing.T) {
 	rt.Check(t, 300, 150000, func(t *rapid.T) {
 		s := scen{
 			move:    rapid.Bool().Draw(t, "move"),
-			src:     rapid.SampledFrom([]int{srcRegular, srcRegular, srcRegular, srcViaSymlink, srcMissing, srcDirLinkDotDot}).Draw(t, "source"),
+			src:     rapid.SampledFrom([]int{srcRegular, srcRegular, srcRegular, srcViaSymlink, srcMissing, srcDirLinkDotDot, srcSymlinkChain}).Draw(t, "source"),
 			dst:     rapid.IntRange(0, numDst-1).Draw(t, "destination"),
 			sibling: rapid.SampledFrom([]int{0, 0, 0, 1, 2, 3, 4, 5, 6, 7, 8, 9, 10}).Draw(t, "sourceNamedLikeASiblingOfTheDestination"),
 			salt:    rapid.Uint64().Draw(t, "salt"),
